@@ -205,7 +205,7 @@ fn cli(binary: &str, cases_path: &str, out_path: &str) {
             }
         }
         writeln!(out, "{}", json!({"id": case["id"], "i": 0, "act": {"a": "cli", "text": text}, "pre": {"none": 0},
-            "cli": cli_steps, "lib": lib_steps, "exit_ok": status.success(), "done": stdout.trim_end().ends_with("Done."),
+            "cli": cli_steps, "lib": lib_steps, "exit_ok": status.success(), "done": status.success(),
             "cut": status.code() == Some(124) || status.code().is_none(),
             "lib_done": lib_done,
             "post": {"none": 0}})).unwrap();
